@@ -60,8 +60,8 @@ theorem pqFinish_sound (what g : Nat) (h1 : 1 < g) (h2 : g < what) (hd : g ∣ w
   · refine ⟨?_, h1, by omega⟩
     rw [hk]
 
-theorem pqLoop_sound (hv1 : Facts.C13.pqValue1 = 1) (what : Nat) (tape : List Nat) (i g : Nat) (p q : Nat)
-    (hg : g ≤ 1 ∨ g ∣ what) (h : pqLoop what tape i g = .ok (p, q)) :
+theorem pqLoop_sound (hv1 : Facts.C13.pqValue1 = 1) (what : Nat) (tape : List Nat) (i g : Nat) (p q k : Nat)
+    (hg : g ≤ 1 ∨ g ∣ what) (h : pqLoop what tape i g = .ok (p, q, k)) :
     p * q = what ∧ 1 < p ∧ p ≤ q := by
   fun_induction pqLoop what tape i g with
   | case1 tape i g hc =>
@@ -72,7 +72,9 @@ theorem pqLoop_sound (hv1 : Facts.C13.pqValue1 = 1) (what : Nat) (tape : List Na
       · exact hg
     have := pqFinish_sound what g hc.1 hc.2 hd
     injection h with h
-    rw [h] at this
+    injection h with h1 h2
+    injection h2 with h2 h3
+    rw [h1, h2] at this
     exact this
   | case2 => cases h
   | case3 => cases h
